@@ -19,6 +19,9 @@ def run(ctx):
     rng.shuffle(uni)
     cs = [charfam.concretize(s, rng) for s in uni[: (150 if quick else 2000)]]
     cs += charfam.seeded_small(ctx, rng, 40 if quick else 500) + charfam.seeded_flag_trees(ctx, rng, 8 if quick else 60)
+    # long recipes and recipes with many required sets: no exact distribution, but Entropy() must not exceed log2 of the exact count
+    from checks import c07
+    cs += c07.long_recipes(rng, 6 if quick else 60) + c07.many_sets()
     cfiles, ccells, cleaves = charfam.run_scenarios(ctx, cs, "c06c")
     sf, sc_, sl = charfam.run_sequences(ctx, charfam.collision_sequences(), "c06")      # process-wide memo collisions (entropy of the wrong recipe)
     cfiles, ccells, cleaves = cfiles + sf, ccells + sc_, cleaves + sl
